@@ -1,7 +1,7 @@
 #!/bin/bash
 # runs the registered check of each seeded change's property against the change (scratch copy) and prints one line per seed
 cd /verif
-for d in seeded/*/; do
+for d in ${SEEDS:-seeded/*/}; do
   s=$(basename $d); prop=${s%-*}
   if ! jq -e --arg p "$prop" '.checks[] | select(.property_id==$p)' MANIFEST.json >/dev/null; then echo "SEED $s prop=$prop: property not claimed"; continue; fi
   out=$(tools/mutant.sh $d/patch.diff $prop 2>&1)
